@@ -70,7 +70,7 @@ Definition spec_quality (ign_a : bool) (td : json) (rviews : list rview) : nat *
   let ign := filter (ignored ign_a) rviews in
   (List.length (filter (fun r => same_course r && has_choices r) ign),
    map (fun r => match pc_assigned (rv_pcd r) with Some ci => assigned_penalty ci (pc_choices (rv_pcd r)) td | None => 0 end)
-       (filter (fun r => negb (same_course r)) ign)).
+       (filter (fun r => negb (same_course r) && has_choices r) ign)).
 (* the courses of the problem: those offered (and not ignored), ordered by right-aligned course number, ties in key order *)
 Definition spec_csorted (ign_c : bool) (cviews : list cview) : list cview := sort_by cv_key (filter (in_problem ign_c) cviews).
 Definition spec_cmap (ign_c : bool) (cviews : list cview) : list (Z * option nat) :=
